@@ -3,7 +3,7 @@
 From Coq Require Import ZArith List Lia Bool.
 From Coq Require Import ZifyBool.
 From RTP Require Import Base.Bits Base.Res Base.ListX Base.Bytes Base.Tactics.
-From RTP Require Import Model.RtpPacket Spec.Rfc8285 Spec.Rfc3550 Proofs.ExtLoop Proofs.Decode3550.
+From RTP Require Import Model.RtpPacket Spec.Rfc8285 Spec.Rfc3550 Proofs.ExtLoop Proofs.ExtForm Proofs.Decode3550.
 Import ListNotations.
 Open Scope Z_scope.
 
@@ -16,9 +16,11 @@ Definition wf_ext2 (e : ext) : Prop := 1 <= eid e <= 255 /\ 0 <= zlen (epayload 
 Definition wf_exts (h : header) : Prop :=
   if extension h then
     ((extension_profile h = profile_one_byte /\ Forall wf_ext1 (extensions h)) \/
-     (extension_profile h = profile_two_byte /\ Forall wf_ext2 (extensions h)) \/
+     (* 0x1000 .. 0x100F: the two-byte form with any application bits (RFC 8285 4.3) *)
+     (0 <= extension_profile h < 65536 /\ ext_form (extension_profile h) = profile_two_byte /\
+      Forall wf_ext2 (extensions h)) \/
      (0 <= extension_profile h < 65536 /\ extension_profile h <> profile_one_byte /\
-      extension_profile h <> profile_two_byte /\
+      ext_form (extension_profile h) <> profile_two_byte /\
       exists v, extensions h = [mkExt 0 v] /\ zlen v mod 4 = 0))
     /\ (ext_block_size h + 3) / 4 <= 65536      (* the 16-bit word count can hold the block *)
   else extension_profile h = 0 /\ extensions h = [].
@@ -43,9 +45,9 @@ Definition block_of (h : header) : ext_block :=
     if extension_profile h =? profile_one_byte then
       let body := enc_items false (items_of (extensions h)) in
       XOne (items_of (extensions h) ++ repeat IPad (pad_count (zlen body)))
-    else if extension_profile h =? profile_two_byte then
+    else if ext_form (extension_profile h) =? profile_two_byte then
       let body := enc_items true (items_of (extensions h)) in
-      XTwo (items_of (extensions h) ++ repeat IPad (pad_count (zlen body)))
+      XTwo (extension_profile h - 4096) (items_of (extensions h) ++ repeat IPad (pad_count (zlen body)))
     else XLegacy (extension_profile h) (match extensions h with e :: _ => epayload e | [] => [] end)
   else XNone.
 
@@ -169,7 +171,7 @@ Proof.
   intros (_ & _ & _ & _ & _ & _ & _ & Hx) He. unfold wf_exts in Hx. rewrite He in Hx.
   destruct Hx as (Hcases & Hwords).
   unfold block_of, ext_body, ext_block_size in *. rewrite He.
-  destruct Hcases as [(Hp & Hes) | [(Hp & Hes) | (Hr & Hn1 & Hn2 & v & Hv & Hmod)]].
+  destruct Hcases as [(Hp & Hes) | [(Hr2 & Hp & Hes) | (Hr & Hn1 & Hn2 & v & Hv & Hmod)]].
   - rewrite Hp in *. change (profile_one_byte =? profile_one_byte) with true in *. cbv iota in *.
     set (body := enc_items false (items_of (extensions h))) in *.
     rewrite fold_size_one in Hwords. fold body in Hwords.
@@ -191,30 +193,31 @@ Proof.
     + reflexivity.
     + reflexivity.
     + cbn [block_elems]. rewrite elems_app, elems_pads, app_nil_r. apply elems_of_exts.
-  - rewrite Hp in *. change (profile_two_byte =? profile_one_byte) with false in *.
-    change (profile_two_byte =? profile_two_byte) with true in *. cbv iota in *.
+  - pose proof (ext_form_two_inv _ Hr2 Hp) as Hrange.
+    rewrite (two_not_one _ Hr2 Hp) in *. rewrite Hp in *. rewrite Z.eqb_refl in *. cbv iota in *.
     set (body := enc_items true (items_of (extensions h))) in *.
     rewrite fold_size_two in Hwords. fold body in Hwords.
     pose proof (zlen_nonneg body) as Hb.
     exists body. rewrite ext_body_two by assumption. fold body.
     split; [reflexivity|].
-    assert (Hbb : block_body (XTwo (items_of (extensions h) ++ repeat IPad (pad_count (zlen body))))
+    assert (Hbb : block_body (XTwo (extension_profile h - 4096) (items_of (extensions h) ++ repeat IPad (pad_count (zlen body))))
                   = body ++ repeat 0 (pad_count (zlen body))).
     { cbn [block_body]. rewrite enc_items_app, enc_items_pads. reflexivity. }
     assert (Hbl : zlen (body ++ repeat 0 (pad_count (zlen body))) = (zlen body + 3) / 4 * 4).
     { rewrite zlen_app, zlen_repeat. apply padded_len; assumption. }
     split; [|split; [|split; [|split; [|split]]]].
     + unfold enc_block. rewrite Hbb, Hbl. cbn [block_profile].
+      replace (4096 + (extension_profile h - 4096)) with (extension_profile h) by lia.
       replace ((zlen body + 3) / 4 * 4 / 4) with ((zlen body + 3) / 4) by lia.
       unfold pad_count. reflexivity.
     + rewrite fold_size_two. reflexivity.
-    + unfold wf_block. rewrite Hbb, Hbl. split; [|lia].
+    + unfold wf_block. rewrite Hbb, Hbl. split; [|lia]. split; [lia|].
       apply Forall_app. split; [apply wf_items2; assumption|apply wf_pads2].
     + reflexivity.
-    + reflexivity.
+    + cbn [block_profile]. lia.
     + cbn [block_elems]. rewrite elems_app, elems_pads, app_nil_r. apply elems_of_exts.
   - destruct (extension_profile h =? profile_one_byte) eqn:E1; [lia|].
-    destruct (extension_profile h =? profile_two_byte) eqn:E2; [lia|].
+    destruct (ext_form (extension_profile h) =? profile_two_byte) eqn:E2; [lia|].
     rewrite Hv in *. cbn [epayload] in *.
     pose proof (zlen_nonneg v) as Hb.
     exists v. destruct (zlen v mod 4 =? 0) eqn:E3; [|lia].
@@ -223,7 +226,10 @@ Proof.
     split; [|split; [|split; [|split; [|split]]]].
     + unfold enc_block. cbn [block_profile block_body]. replace ((zlen v + 3) / 4) with (zlen v / 4) by lia. reflexivity.
     + reflexivity.
-    + unfold wf_block. cbn [block_body]. unfold profile_one_byte, profile_two_byte in *. repeat split; try lia.
+    + unfold wf_block. cbn [block_body].
+      assert (Hnot : ~ (4096 <= extension_profile h < 4112)).
+      { intros Hin. rewrite (ext_form_is_two _ Hr) in E2. lia. }
+      unfold profile_one_byte in *. repeat split; try lia.
     + reflexivity.
     + reflexivity.
     + reflexivity.
